@@ -3,6 +3,8 @@ CONSTANTS
   Modes <- AllModes
   LastSerial <- MCLastSerial
   DayStepsUntil <- BigDayStepsUntil
+  CalSeeds <- BigCalSeeds
+  SplitChains <- MCSplitChains
   DateYears <- BigDateYears
   ArgLo <- MCArgLo
   ArgHi <- MCArgHi
